@@ -266,6 +266,36 @@ def main(argv):
                             want.setdefault(expected_server(k), []).append(inner(k))
                         real = {name: ks_here for name, ks_here in per_server.items()}
                         metas.append((dict(case0, keys=repr(keys)[:100]), real, pfx))
+    # ---- every batch size: with one server all keys of a call form one batch, with two servers the batches take every pair of sizes - whatever the
+    #      size of a server's batch, each of its keys is asked for exactly once and comes back (sizes 1..130; boundaries such as 32/33/64/65 included) ----
+    for servers in (server_sets[0], server_sets[1]):
+        for pooling in (False, True):
+            S = Scripted(rng)
+            hc = HashClient(servers, socket_module=S.sm, use_pooling=pooling, default_noreply=False, retry_attempts=0, dead_timeout=0)
+            S.begin_call(0, {})
+            allk = ["sz%03d" % i for i in range(131)]
+            hc.set_many({k_: b"v" + k_.encode() for k_ in allk}, noreply=False)
+            for n_ in range(1, 131):
+                if pooling and n_ % 3:
+                    continue
+                ks = allk[:n_]
+                for srv in S.srvs.values():
+                    del srv.cmds[:]
+                ctx.case(("batch-size", repr(servers), pooling, n_))
+                ctx.count("batch-size sweep")
+                case0 = {"servers": servers, "pooling": pooling, "number_of_keys": n_}
+                try:
+                    gm = hc.get_many(ks)
+                    asked = sorted(wk for srv in S.srvs.values() for cmd in srv.cmds for wk in keys_seen(cmd))
+                    gsm = hc.gets_many(ks)
+                except Exception as e:
+                    ctx.violation("get_many / gets_many raised on healthy servers", dict(case0, error=repr(e)[:100]), tags=["op:get_many", "batch-size"])
+                    break
+                if asked != sorted(k_.encode() for k_ in ks) or gm != {k_: b"v" + k_.encode() for k_ in ks} or set(gsm) != set(ks):
+                    missing = sorted(set(ks) - set(gm))[:5]
+                    ctx.violation("get_many did not send each key exactly once to its server (and to no other)", dict(case0, keys_not_returned=missing, keys_asked=len(asked)),
+                                  tags=["op:get_many", "batch-size"])
+                    break
     # ---- a server set that CHANGES through failover: a server is taken out after a failure and comes back after dead_timeout; whichever operation
     #      happens to be the first one after that - single-key or multi-key - all operations agree on where a key lives: what set_many wrote is
     #      found by get / gets / get_many, what set wrote is found by get_many --------------------------------------------------------------------
